@@ -23,6 +23,7 @@ fn table() -> Vec<(&'static str, &'static str, RunFn, ReplayFn)> {
         ("C14", "exploration", props::c14::run, props::c14::replay),
         ("C18", "exploration", props::c18::run, props::c18::replay),
         ("C19", "exploration", props::c19::run, props::c19::replay),
+        ("C20", "exploration", props::c20::run, props::c20::replay),
     ]
 }
 
